@@ -135,6 +135,10 @@ func mergeControllers(docs []did.Document, result *did.Document) {
 	for _, controller := range controllers {
 		result.Controller = append(result.Controller, controller)
 	}
+	// for consistent results
+	sort.Slice(result.Controller, func(i, j int) bool {
+		return strings.Compare(result.Controller[i].String(), result.Controller[j].String()) == -1
+	})
 }
 
 // mergeServices merges services based upon their ID. The ID is derived from the contents. Two services sharing the same ID have the same contents.
